@@ -63,6 +63,8 @@ def make_cfg(case: dict[str, Any], mask: list[bool] | None, method: str) -> dict
                                     "int-array": np.array(mask, dtype=np.int64), "tuple": tuple(mask)}[kind]
     if case["assign"] is not None:
         cfg["gradient"]["samplers"] = case["assign"]
+    if case.get("vtypes") is not None:
+        cfg["variables"]["types"] = case["vtypes"]
     if case.get("ptypes") is not None:
         cfg["gradient"]["perturbation_types"] = case["ptypes"]
     for v in case.get("unbounded") or []:  # variables without an upper bound
@@ -257,6 +259,7 @@ def hypothesis_shard(item: dict[str, Any]) -> Collector:
                     tiny = draw(st.sampled_from([5e-11, 3e-12, 2e-14]))
                     (case["x0"] if case["start"] is None else case["start"])[i] = -1.0 + tiny if pick == "lo" else 2.0 - tiny
             case["near_bound"] = True
+        case["vtypes"] = [draw(st.sampled_from([1, 2])) for _ in range(n)] if draw(st.integers(0, 3)) == 0 else None  # REAL / INTEGER
         case["fail_perturbations"] = draw(st.integers(0, 5)) == 0 and method in ("slsqp", "l-bfgs-b", "scripted")
         case["budget"] = draw(st.integers(2, 7))
         case["weights"] = [draw(st.sampled_from([1.0, 2.0])) for _ in range(draw(st.integers(1, 3)))]
@@ -294,7 +297,8 @@ def hypothesis_shard(item: dict[str, Any]) -> Collector:
                           "scaled" if case["vscale"] else "unscaled", f"samplers={len(case['samplers'])}",
                           "start=argument" if case["start"] is not None else "start=config", f"fixed={fixed}", f"mask-as-{case['mask_kind']}",
                           "start-near-bound" if case.get("near_bound") else "start-generic",
-                          "all-perturbations-fail" if case.get("fail_perturbations") else "no-failures"))
+                          "all-perturbations-fail" if case.get("fail_perturbations") else "no-failures",
+                          "integer-typed-variables" if case.get("vtypes") and 2 in case["vtypes"] else "real-variables"))
 
     run_hypothesis(col, cases(), body, seed=item["seed"], max_examples=item["examples"])
     return col
